@@ -89,6 +89,8 @@ def enumerate_ops(m, mi):
         elif k.startswith('optional_') and k.endswith('_property'):
             ops += [(mi, n, 'set-none', 0), (mi, n, 'val-donor', 1), (mi, n, 'val-donor', 3), (mi, n, 'val-same', 0)]
             if n in ('leading_comment', 'trailing_comment'): ops += [(mi, n, 'val-paragraphs', 0)]
+            if k in ('optional_decimal_property', 'optional_meta_value_property') or n.endswith('_comment'): ops += [(mi, n, 'val-falsy', 0)]
+            if k == 'optional_meta_value_property': ops += [(mi, n, 'val-falsy', 1)]
         elif k.startswith('repeated_') and k.endswith('_property') or k in ('repeated_raw_meta_item_property', 'repeated_meta_item_property'):
             try: ln = len(cur)
             except Exception: continue
@@ -165,6 +167,12 @@ def apply_op(f, op):
         raise AssertionError('C19: the root of the same document was accepted as a child')
     if action == 'val-paragraphs':
         setattr(m, n, 'p1\n\np2'); return m, ('val', n, 'p1\n\np2')       # a comment of two paragraphs: an empty comment line in between
+    if action == 'val-falsy':
+        # in-domain values that are falsy in Python: zero, the empty string, False (a guard written `if value:` instead of `if value is not None:` drops them)
+        import decimal
+        k_ = dict(props(type(m)))[n]
+        v = '' if n.endswith('_comment') else (False if arg else decimal.Decimal('0'))
+        setattr(m, n, v); return m, ('val', n, v)
     if action == 'val-same':
         setattr(m, n, cur); return m, ('val', n, cur)
     if action == 'val-donor':
@@ -226,8 +234,15 @@ def apply_op(f, op):
             del view['zzmissing']; raise AssertionError('C19: deleting a missing key was accepted')
         key = keys[arg]
         if action == 'setkey': view[key] = mapping_value(view, m, n, key); return m, ('key', n, key)
-        if action == 'delkey': del view[key]; return m, ('key', n, key)
-        check_handed_out(view.pop(key), f'{n}.pop({key!r})'); return m, ('key', n, key)
+        # mapping semantics (C10): deleting / popping a key removes the FIRST entry with that key and nothing else, whatever else (comments) sits in the raw list
+        ids_before = [id(x) for x in getattr(m, 'raw_' + n if not n.startswith('raw_') else n).values()] if action in ('delkey', 'popkey') else None
+        first = keys.index(key); want_keys = keys[:first] + keys[first + 1:]
+        if action == 'delkey': del view[key]
+        else: check_handed_out(view.pop(key), f'{n}.pop({key!r})')
+        if list(view.keys()) != want_keys: raise AssertionError(f'C10: {n}: removing key {key!r} from {keys} leaves {list(view.keys())}, a dict leaves {want_keys}')
+        ids_after = [id(x) for x in getattr(m, 'raw_' + n if not n.startswith('raw_') else n).values()]
+        if ids_after != ids_before[:first] + ids_before[first + 1:]: raise AssertionError(f'C10: {n}: removing key {key!r} (entry {first}) did not remove exactly that item')
+        return m, ('key', n, key)
     if action in ('unclaim-foreign', 'claim-foreign'):
         # a batch that names a comment of ANOTHER document next to this field's own comments: must be refused as a whole (C19)
         other = parse('\n; foreign\n\n2000-01-01 open Assets:Zz\n')
@@ -541,7 +556,7 @@ def run(prop, tier, seed):
     if tier == 'quick' and len(cases) > 4500:
         # rare shapes (refusals with the document's own root, foreign comment batches, extended slices, paragraph comments) get their own sample,
         # so that they are never crowded out by the bulk of ordinary operations
-        RARE = ('unclaim-foreign', 'claim-foreign', 'set-root', 'root-ins', 'root-append', 'root-extend', 'root-setitem', 'root-slice', 'step-set', 'step-del', 'step-set-badlen', 'val-paragraphs',
+        RARE = ('val-falsy', 'unclaim-foreign', 'claim-foreign', 'set-root', 'root-ins', 'root-append', 'root-extend', 'root-setitem', 'root-slice', 'step-set', 'step-del', 'step-set-badlen', 'val-paragraphs',
                 'pop-default-missing', 'setdefault-new', 'setdefault-existing', 'update-two', 'popitem', 'pop-default-existing', 'map-clear', 'map-read', 'pop-int', 'del-int',
                 'remove', 'remove-missing', 'reverse', 'iadd2', 'extend0', 'list-read')
         rare = [c for c in cases if c[1][2] in RARE]; rest = [c for c in cases if c[1][2] not in RARE]
